@@ -86,6 +86,7 @@ def validate_trie(ctx, files, what):
 
 
 def run(ctx):
+    os.environ.setdefault("VERIF_TLC_HEAP", "4g")      # every TLC run of this check fits (traces are validated in chunks)
     ctx.build()
     quick = ctx.quick()
     # ------------------------------------------------------------------ part 1: state trie
@@ -108,7 +109,7 @@ def run(ctx):
         efiles, esumm = ctx.replay("triekv", graph=edot, shards=16, maxlen=300, name="triekv-edge", timeout=1800)
         ctx.extra["edge_transitions_in_graph"] = esumm["graph_edges"]
     # random long behaviours of the larger configuration (3 value sizes, older roots reopened, cache limit 120)
-    nsim, depth = (300, 80) if quick else (4000, 100)
+    nsim, depth = (300, 80) if quick else (1200, 100)
     sim = ctx.tlc_simulate("MCTrieKV", "MCTrieKV_sim.cfg", nsim, depth, "triekv", timeout=1200)
     sfiles, ssumm = ctx.replay("triekv", sim=sim, shards=16, name="triekv-sim", timeout=1800)
     # one validation run over everything: the root history (content <-> root) spans all paths
@@ -123,9 +124,9 @@ def run(ctx):
     mcfg = "Merkle_quick.cfg" if quick else "Merkle_thorough.cfg"
     mdot = ctx.path("merkle.dot")
     ctx.tlc_exhaustive("Merkle", mcfg, timeout=1200, dump=mdot)
-    mfiles, msumm = ctx.replay("merkle", graph=mdot, shards=8, maxlen=100000, name="merkle")
+    mfiles, msumm = ctx.replay("merkle", graph=mdot, shards=8, maxlen=400, name="merkle")
     grid = ctx.path("traces", "merkle-grid.ndjson")
-    rows = 150 if quick else 1500
+    rows = 150 if quick else 800
     ctx.drive("merkle-grid", ["-out", grid, "-seed", ctx.seed, "-rows", rows, "-maxlen", 40])
     mok = ctx.validate("TraceMerkle", "TraceMerkle.cfg", mfiles + [grid], what="all leaf lists of the graph + seeded grid", timeout=1800)
     ctx.extra["merkle_lists_in_graph"] = msumm["graph_nodes"]
